@@ -180,7 +180,7 @@ Definition effective_uri (q : request) : bytes :=
   ++ uri_encode path_chars (q_path q).
 
 (* ------------------------------------------------------------------ *)
-(* the built-in manager ACL: url_regex +i ^[^:]+://[^/]+<literal>       *)
+(* the built-in manager ACL: url_regex +i ^[^:]+://[^/]+<literal>  (+i = case-SENSITIVE: it clears REG_ICASE) *)
 
 (* "^[^:]+://[^/]+" *)
 Definition mgr_regex_head : bytes := [94;91;94;58;93;43;58;47;47;91;94;47;93;43].
@@ -189,12 +189,12 @@ Definition literal_char (c : N) : bool := is_alpha c || is_digit c || (c =? 47) 
 
 (* the shape of the configured default this model is a transcription of *)
 Definition mgr_acl_shape_ok : bool :=
-  list_eqb mgr_acl_type [117;114;108;95;114;101;103;101;120] && mgr_acl_icase
+  list_eqb mgr_acl_type [117;114;108;95;114;101;103;101;120] && negb mgr_acl_icase
   && list_eqb (takeN 14 mgr_acl_regex) mgr_regex_head
   && forallb literal_char mgr_regex_lit
   && match mgr_regex_lit with c :: _ => c =? 47 | [] => false end.
 
-(* regexec() of that pattern (REG_EXTENDED|REG_NOSUB|REG_ICASE) on a C string: both bracket runs are forced
+(* regexec() of that pattern (REG_EXTENDED|REG_NOSUB) on a C string: both bracket runs are forced
    ([^:]+ must be followed by ':', [^/]+ by the '/' the literal starts with), so matching is deterministic *)
 Definition mgr_regex_match (s0 : bytes) : bool :=
   let s := cstr s0 in
@@ -206,7 +206,7 @@ Definition mgr_regex_match (s0 : bytes) : bool :=
       let '(b, r3) := span (fun c => negb (c =? 47)) (dropN 3 r1) in
       match b with
       | [] => false
-      | _ => starts_with (lower r3) (lower mgr_regex_lit)
+      | _ => starts_with r3 mgr_regex_lit
       end
     else false
   end.
